@@ -216,3 +216,31 @@ def c16_2(R):
         R.ok("rttvar-before-srtt", sm.name, "RTTVAR is updated with the old SRTT")
     else:
         R.fail([sm.name, "update-order"], "SRTT is updated before RTTVAR (RFC 6298 2.3 requires the old SRTT in the variance update)", where=sm.where(), instance="rttvar-before-srtt")
+
+
+@rule("C16.3", ["C16"], ["E4", "E1"], "the estimator is fed the measured round trip, not a trimmed one",
+      "RFC 6298 smooths the samples themselves; SRTT stays between the smallest and the largest sample only if every sample enters the formulas as measured. In RttEstimator::sample the parameter "
+      "reaches srtt / rttvar without passing through min / max / clamp (the result - the RTO - is what is clamped, C16.1): a sample capped at the maximum RTO makes SRTT = 60 s after a single 90 s "
+      "handshake, below every sample seen.")
+def c16_3(R):
+    b = R.body("rtte::RttEstimator::sample")
+    bad = []
+    uses = 0
+    for t in b.calls():
+        for i, a in enumerate(t.args):
+            tr = trace(b, a)
+            if tr.kind == "param" and tr.root[1] == 2 and not tr.fields:
+                uses += 1
+                if call_matches(t, ("Ord::min", "Ord::max", "Ord::clamp", "Duration::min", "Duration::max", "Duration::clamp", "saturating_sub", "saturating_add")):
+                    bad.append(t)
+    for s in b.stmts():
+        for o in (s.rv.ops if s.rv is not None else []):
+            tr = trace(b, o) if o.kind != "const" else None
+            if tr is not None and tr.kind == "param" and tr.root[1] == 2 and not tr.fields:
+                uses += 1
+    R.floor("uses of the sample parameter in RttEstimator::sample", uses, 2)
+    if bad:
+        R.fail([b.name, "sample-trimmed-before-use", short_callee(bad[0].resolved or bad[0].callee)], "RttEstimator::sample passes the measured RTT through %s before smoothing it: SRTT can leave the range of the samples seen"
+               % short_callee(bad[0].resolved or bad[0].callee), where=bad[0].where(), instance="sample-enters-as-measured")
+    else:
+        R.ok("sample-enters-as-measured", b.name, "new_rtt reaches the smoothing formulas unmodified (%d uses)" % uses)
